@@ -1,7 +1,7 @@
 (* C17: the tax summary does not depend on the order of the taxable rows.
    Part 1 - what a group's base is, in terms of the rows alone (a fold over the rows of its class in
    row order), hence invariant under permutation because the accumulator is commutative. *)
-From Coq Require Import ZArith QArith List Bool Lia Permutation.
+From Coq Require Import ZArith QArith List Bool Lia ZifyBool ZifyNat Permutation SetoidList SetoidPermutation Morphisms.
 From Verif Require Import Base.Wire Base.Rha Base.RhaProofs Num.Amount Num.AmountProofs Calc.Doc Calc.Calc
   Calc.PermProofs Calc.TaxProofs.
 Import ListNotations.
@@ -164,4 +164,927 @@ Proof.
   - apply Permutation_nil in PC. discriminate.
   - apply Permutation_sym, Permutation_nil in PC. discriminate.
   - f_equal. apply fold_acc_rr_perm. exact PC.
+Qed.
+
+(* ================================================================================================ *)
+(* Part 2 - the rate groups of one category, as a list up to order                                  *)
+(* ================================================================================================ *)
+
+(* ---------------- the rates list of one category is a fold over the rows of that category ---------------- *)
+Definition cat_rates (code : bytes) (cts : list cat_total) : list rate_total :=
+  match find_cat code cts with Some ct => ct_rates ct | None => [] end.
+
+Definition pairs_of_tl (code : bytes) (tl : tax_line) : list (amount * combo) :=
+  map (fun cb => (tl_total tl, cb)) (filter (fun cb => eqb_bytes (cb_cat cb) code) (tl_taxes tl)).
+Definition pairs_of (code : bytes) (tls : list tax_line) : list (amount * combo) :=
+  flat_map (pairs_of_tl code) tls.
+
+Lemma cat_rates_add cr c tot cb code cts :
+  cat_rates code (add_to_cats cr c tot cb cts) =
+  if eqb_bytes (cb_cat cb) code then add_to_rates cr c tot cb (cat_rates code cts) else cat_rates code cts.
+Proof.
+  unfold cat_rates. induction cts as [|ct r IH]; cbn [add_to_cats find_cat].
+  - cbn [ct_with_rates new_ct ct_code ct_rates]. destruct (eqb_bytes (cb_cat cb) code); reflexivity.
+  - destruct (eqb_bytes (ct_code ct) (cb_cat cb)) eqn:E.
+    + apply eqb_bytes_eq in E. cbn [find_cat ct_with_rates ct_code]. rewrite <- E.
+      destruct (eqb_bytes (ct_code ct) code); reflexivity.
+    + cbn [find_cat]. destruct (eqb_bytes (ct_code ct) code) eqn:F.
+      * apply eqb_bytes_eq in F. apply eqb_bytes_neq in E.
+        assert (N : eqb_bytes (cb_cat cb) code = false) by (apply eqb_bytes_neq; congruence).
+        rewrite N. reflexivity.
+      * exact IH.
+Qed.
+
+Lemma cat_rates_add_tl cr c code tl cts :
+  cat_rates code (add_tl cr c cts tl) = fold_left (add_pair cr c) (pairs_of_tl code tl) (cat_rates code cts).
+Proof.
+  unfold add_tl, pairs_of_tl. generalize (tl_total tl) as tot. intros tot. revert cts.
+  induction (tl_taxes tl) as [|cb l IH]; intros cts; cbn [fold_left filter map].
+  - reflexivity.
+  - rewrite IH, cat_rates_add. destruct (eqb_bytes (cb_cat cb) code); cbn [map fold_left]; reflexivity.
+Qed.
+
+Lemma cat_rates_fold cr c code tls : forall cts,
+  cat_rates code (fold_left (add_tl cr c) tls cts) =
+  fold_left (add_pair cr c) (pairs_of code tls) (cat_rates code cts).
+Proof.
+  unfold pairs_of. induction tls as [|tl r IH]; intros cts; cbn [fold_left flat_map]; [reflexivity|].
+  rewrite IH, cat_rates_add_tl, fold_left_app. reflexivity.
+Qed.
+
+(* EXACT list equality: the groups of a category, in their order, are the fold over its rows *)
+Theorem cat_rates_base_totals cr c code tls :
+  cat_rates code (base_totals cr c tls) = fold_left (add_pair cr c) (pairs_of code tls) [].
+Proof. unfold base_totals. apply cat_rates_fold. Qed.
+
+(* presence of a category *)
+Definition has_cat (code : bytes) (cts : list cat_total) : bool :=
+  match find_cat code cts with Some _ => true | None => false end.
+Definition nonempty {A} (l : list A) : bool := match l with [] => false | _ => true end.
+
+Lemma nonempty_app {A} (l l' : list A) : nonempty (l ++ l') = nonempty l || nonempty l'.
+Proof. destruct l; reflexivity. Qed.
+Lemma nonempty_perm {A} (l l' : list A) : Permutation l l' -> nonempty l = nonempty l'.
+Proof.
+  intros P. destruct l as [|x l], l' as [|y l']; try reflexivity.
+  - apply Permutation_nil in P. discriminate.
+  - apply Permutation_sym, Permutation_nil in P. discriminate.
+Qed.
+
+Lemma has_cat_add cr c tot cb code cts :
+  has_cat code (add_to_cats cr c tot cb cts) = has_cat code cts || eqb_bytes (cb_cat cb) code.
+Proof.
+  unfold has_cat. induction cts as [|ct r IH]; cbn [add_to_cats find_cat].
+  - cbn [ct_with_rates new_ct ct_code]. destruct (eqb_bytes (cb_cat cb) code); reflexivity.
+  - destruct (eqb_bytes (ct_code ct) (cb_cat cb)) eqn:E.
+    + apply eqb_bytes_eq in E. cbn [find_cat ct_with_rates ct_code].
+      destruct (eqb_bytes (ct_code ct) code) eqn:F; [reflexivity|].
+      rewrite <- E, F, orb_false_r. reflexivity.
+    + cbn [find_cat]. destruct (eqb_bytes (ct_code ct) code) eqn:F; [reflexivity|exact IH].
+Qed.
+
+Lemma has_cat_add_tl cr c code tl cts :
+  has_cat code (add_tl cr c cts tl) = has_cat code cts || nonempty (pairs_of_tl code tl).
+Proof.
+  unfold add_tl, pairs_of_tl. generalize (tl_total tl) as tot. intros tot. revert cts.
+  induction (tl_taxes tl) as [|cb l IH]; intros cts; cbn [fold_left filter map].
+  - cbn [nonempty]. rewrite orb_false_r. reflexivity.
+  - rewrite IH, has_cat_add. destruct (eqb_bytes (cb_cat cb) code); cbn [map nonempty].
+    + rewrite !orb_true_r. reflexivity.
+    + rewrite orb_false_r. reflexivity.
+Qed.
+
+Lemma has_cat_fold cr c code tls : forall cts,
+  has_cat code (fold_left (add_tl cr c) tls cts) = has_cat code cts || nonempty (pairs_of code tls).
+Proof.
+  unfold pairs_of. induction tls as [|tl r IH]; intros cts; cbn [fold_left flat_map].
+  - cbn [nonempty]. rewrite orb_false_r. reflexivity.
+  - rewrite IH, has_cat_add_tl, nonempty_app, orb_assoc. reflexivity.
+Qed.
+
+Lemma has_cat_base_totals cr c code tls : has_cat code (base_totals cr c tls) = nonempty (pairs_of code tls).
+Proof. unfold base_totals. rewrite has_cat_fold. reflexivity. Qed.
+
+Theorem category_present_iff_rows cr c code tls :
+  find_cat code (base_totals cr c tls) <> None <-> pairs_of code tls <> [].
+Proof.
+  pose proof (has_cat_base_totals cr c code tls) as H. unfold has_cat in H.
+  destruct (find_cat code (base_totals cr c tls)), (pairs_of code tls); cbn [nonempty] in H; try discriminate;
+    split; congruence.
+Qed.
+
+Lemma pairs_of_perm code tls tls' : Permutation tls tls' -> Permutation (pairs_of code tls) (pairs_of code tls').
+Proof.
+  intros P. unfold pairs_of. induction P as [|x l l' _ IH|x y l|l l' l'' _ IH1 _ IH2]; cbn [flat_map].
+  - constructor.
+  - apply Permutation_app_head. exact IH.
+  - rewrite !app_assoc. apply Permutation_app_tail. apply Permutation_app_comm.
+  - eapply Permutation_trans; eauto.
+Qed.
+
+(* the base of the group a query combo falls into, in a given category, does not depend on row order *)
+Theorem group_base_in_category_independent_of_row_order cr c code q tls tls' :
+  Permutation tls tls' ->
+  option_map rt_base (find_group q (cat_rates code (base_totals cr c tls))) =
+  option_map rt_base (find_group q (cat_rates code (base_totals cr c tls'))).
+Proof.
+  intros P. rewrite !cat_rates_base_totals. apply group_base_independent_of_row_order, pairs_of_perm, P.
+Qed.
+
+Lemma find_cat_some code cts ct : find_cat code cts = Some ct -> In ct cts /\ ct_code ct = code.
+Proof.
+  induction cts as [|x r IH]; cbn [find_cat]; [discriminate|].
+  destruct (eqb_bytes (ct_code x) code) eqn:E.
+  - intros H. injection H as <-. apply eqb_bytes_eq in E. split; [left; reflexivity|exact E].
+  - intros H. destruct (IH H) as [I C]. split; [right; exact I|exact C].
+Qed.
+
+Lemma find_cat_nodup cts ct : NoDup (map ct_code cts) -> In ct cts -> find_cat (ct_code ct) cts = Some ct.
+Proof.
+  induction cts as [|x r IH]; intros N I; [destruct I|].
+  cbn [map] in N. inversion N as [|? ? N1 N2]; subst. cbn [find_cat].
+  destruct I as [->|I].
+  - rewrite eqb_bytes_refl. reflexivity.
+  - destruct (eqb_bytes (ct_code x) (ct_code ct)) eqn:E.
+    + apply eqb_bytes_eq in E. exfalso. apply N1. rewrite E. apply in_map. exact I.
+    + apply IH; assumption.
+Qed.
+
+(* ---------------- groups up to order ---------------- *)
+Lemma same_group_spec g h :
+  same_group g h = true <->
+  rt_ext g = rt_ext h /\ rt_country g = rt_country h /\ same_rate (rt_pct g) (rt_sur g) (rt_pct h) (rt_sur h).
+Proof. unfold same_group. rewrite rt_matches_spec. reflexivity. Qed.
+
+Lemma same_rate_refl p s : same_rate p s p s.
+Proof. unfold same_rate. destruct p; [|exact I]. split; [reflexivity|apply opt_eqQ_refl]. Qed.
+
+Lemma same_group_refl g : same_group g g = true.
+Proof. apply same_group_spec. repeat split. apply same_rate_refl. Qed.
+Lemma same_group_trans g h k : same_group g h = true -> same_group h k = true -> same_group g k = true.
+Proof.
+  rewrite !same_group_spec. intros (A1 & A2 & A3) (B1 & B2 & B3). repeat split; try congruence.
+  eapply same_rate_trans; eauto.
+Qed.
+(* a group takes exactly the combos its equals take *)
+Lemma matches_same_group g h q : same_group g h = true -> rt_matches h q = true -> rt_matches g q = true.
+Proof.
+  rewrite same_group_spec, !rt_matches_spec. intros (A1 & A2 & A3) (B1 & B2 & B3). repeat split; try congruence.
+  eapply same_rate_trans; eauto.
+Qed.
+
+(* same class (country, extensions, percentage and surcharge as rationals) and same figures; the
+   informational key and the TEXT of the percentage are those of the first row seen *)
+Definition geqv (g h : rate_total) : Prop :=
+  same_group g h = true /\ rt_base g = rt_base h /\ rt_amount g = rt_amount h /\ rt_suramount g = rt_suramount h.
+
+Global Instance geqv_equiv : Equivalence geqv.
+Proof.
+  split.
+  - intros g. unfold geqv. repeat split. apply same_group_refl.
+  - intros g h (A & B & C & D). unfold geqv. rewrite same_group_sym. repeat split; congruence.
+  - intros g h k (A & B & C & D) (A' & B' & C' & D'). unfold geqv. repeat split; try congruence.
+    eapply same_group_trans; eauto.
+Qed.
+
+Lemma distinct_NoDupA R : distinct_groups R -> NoDupA geqv R.
+Proof.
+  induction R as [|g r IH]; cbn [distinct_groups]; intros D; constructor.
+  - intros I. apply InA_alt in I. destruct I as (h & (S & _) & Ih).
+    destruct D as [F _]. rewrite Forall_forall in F. rewrite (F h Ih) in S. discriminate.
+  - apply IH, D.
+Qed.
+
+(* in a list of distinct groups, two members of the same class are the same member *)
+Lemma distinct_same_group_eq R g h :
+  distinct_groups R -> In g R -> In h R -> same_group h g = true -> h = g.
+Proof.
+  induction R as [|x r IH]; cbn [distinct_groups]; intros FD Ig Ih S; [destruct Ig|].
+  destruct FD as [F D]. rewrite Forall_forall in F. destruct Ig as [->|Ig], Ih as [->|Ih].
+  - reflexivity.
+  - rewrite same_group_sym, (F h Ih) in S. discriminate.
+  - rewrite (F g Ig) in S. discriminate.
+  - apply IH; assumption.
+Qed.
+
+Lemma fold_add_pair_distinct cr c ps : forall rts, distinct_groups rts -> distinct_groups (fold_left (add_pair cr c) ps rts).
+Proof.
+  induction ps as [|p ps IH]; intros rts D; cbn [fold_left]; [exact D|].
+  apply IH. unfold add_pair. apply add_to_rates_distinct, D.
+Qed.
+
+(* before the amounts are calculated they are all zero *)
+Definition fresh (c : nat) (g : rate_total) : Prop := rt_amount g = zero_of c /\ rt_suramount g = zero_of c.
+
+Lemma add_to_rates_fresh cr c tot cb rts : Forall (fresh c) rts -> Forall (fresh c) (add_to_rates cr c tot cb rts).
+Proof.
+  induction rts as [|rt r IH]; intros F; cbn [add_to_rates].
+  - constructor; [|constructor]. split; reflexivity.
+  - inversion F as [|? ? F1 F2]; subst. destruct (rt_matches rt cb); constructor; auto.
+Qed.
+Lemma fold_add_pair_fresh cr c ps : forall rts, Forall (fresh c) rts -> Forall (fresh c) (fold_left (add_pair cr c) ps rts).
+Proof.
+  induction ps as [|p ps IH]; intros rts D; cbn [fold_left]; [exact D|].
+  apply IH. unfold add_pair. apply add_to_rates_fresh, D.
+Qed.
+
+Lemma find_group_some q R g : find_group q R = Some g -> In g R /\ rt_matches g q = true.
+Proof. unfold find_group. apply find_some. Qed.
+
+Lemma find_group_in q R g : In g R -> rt_matches g q = true -> exists h, find_group q R = Some h.
+Proof.
+  intros I M. unfold find_group. destruct (find (fun g0 => rt_matches g0 q) R) as [h|] eqn:E; [eauto|].
+  pose proof (find_none _ _ E g I) as N. cbn beta in N. congruence.
+Qed.
+
+Lemma groups_sub cr c ps ps' : Permutation ps ps' ->
+  forall g, In g (fold_left (add_pair cr c) ps []) -> InA geqv g (fold_left (add_pair cr c) ps' []).
+Proof.
+  intros P g Ig.
+  set (R := fold_left (add_pair cr c) ps []) in *. set (R' := fold_left (add_pair cr c) ps' []).
+  assert (D : distinct_groups R) by (apply fold_add_pair_distinct; exact I).
+  assert (Fr : Forall (fresh c) R) by (apply fold_add_pair_fresh; constructor).
+  assert (Fr' : Forall (fresh c) R') by (apply fold_add_pair_fresh; constructor).
+  set (q := rt_combo [] g).
+  destruct (find_group_in q R g Ig (same_group_refl g)) as (h & Eh).
+  destruct (find_group_some _ _ _ Eh) as [Ih Mh].
+  assert (h = g) by (apply (distinct_same_group_eq R); assumption). subst h.
+  pose proof (group_base_independent_of_row_order cr c q ps ps' P) as B. fold R R' in B.
+  rewrite Eh in B. cbn [option_map] in B.
+  destruct (find_group q R') as [g'|] eqn:Eg'; cbn [option_map] in B; [|discriminate].
+  injection B as B. destruct (find_group_some _ _ _ Eg') as [Ig' Mg'].
+  apply InA_alt. exists g'. split; [|exact Ig'].
+  rewrite Forall_forall in Fr, Fr'. destruct (Fr g Ig) as [A1 A2]. destruct (Fr' g' Ig') as [B1 B2].
+  unfold geqv. rewrite same_group_sym. repeat split; try congruence. exact Mg'.
+Qed.
+
+Theorem groups_permA cr c ps ps' : Permutation ps ps' ->
+  PermutationA geqv (fold_left (add_pair cr c) ps []) (fold_left (add_pair cr c) ps' []).
+Proof.
+  intros P. apply NoDupA_equivlistA_PermutationA.
+  - exact geqv_equiv.
+  - apply distinct_NoDupA, fold_add_pair_distinct. exact I.
+  - apply distinct_NoDupA, fold_add_pair_distinct. exact I.
+  - intros x. split; intros Ix; apply InA_alt in Ix; destruct Ix as (g & E & Ig).
+    + apply (InA_eqA geqv_equiv (x := g)); [symmetry; exact E|]. apply (groups_sub cr c ps ps' P g Ig).
+    + apply (InA_eqA geqv_equiv (x := g)); [symmetry; exact E|].
+      apply (groups_sub cr c ps' ps (Permutation_sym P) g Ig).
+Qed.
+
+Theorem category_groups_independent_of_row_order cr c code tls tls' : Permutation tls tls' ->
+  PermutationA geqv (cat_rates code (base_totals cr c tls)) (cat_rates code (base_totals cr c tls')).
+Proof. intros P. rewrite !cat_rates_base_totals. apply groups_permA, pairs_of_perm, P. Qed.
+
+(* ================================================================================================ *)
+(* Part 3 - amounts: group amounts, category amounts and the tax sum                                *)
+(* ================================================================================================ *)
+Lemma mul_compat a p p' : toQ p == toQ p' -> mul a p = mul a p'.
+Proof.
+  intros E. apply amount_eq; [|reflexivity]. rewrite !mul_val. apply roundQ_compat. rewrite E. reflexivity.
+Qed.
+
+Lemma rt_calc_ext c g : rt_ext (rt_calc c g) = rt_ext g.
+Proof. unfold rt_calc. destruct (rt_pct g); reflexivity. Qed.
+Lemma rt_calc_country c g : rt_country (rt_calc c g) = rt_country g.
+Proof. unfold rt_calc. destruct (rt_pct g); reflexivity. Qed.
+
+Lemma same_group_calc c g h : same_group g h = true -> same_group (rt_calc c g) (rt_calc c h) = true.
+Proof.
+  rewrite !same_group_spec, !rt_calc_ext, !rt_calc_country, !rt_calc_pct, !rt_calc_sur. tauto.
+Qed.
+
+(* groups of the same class with the same base get the same amounts: equal percentages as rationals
+   give the same rounded product *)
+Lemma rt_calc_geqv c g h : geqv g h -> geqv (rt_calc c g) (rt_calc c h).
+Proof.
+  intros (S & B & A & U). unfold geqv. split; [apply same_group_calc, S|].
+  rewrite !rt_calc_base. split; [exact B|].
+  apply same_group_spec in S. destruct S as (_ & _ & S). unfold same_rate, opt_eqQ in S.
+  unfold rt_calc. destruct (rt_pct g) as [p|], (rt_pct h) as [p'|]; try tauto; cbn [rt_amount rt_suramount].
+  destruct S as [Ep Es]. unfold pct_of. rewrite B. split; [apply mul_compat, Ep|].
+  destruct (rt_sur g) as [s|], (rt_sur h) as [s'|]; try tauto.
+  apply mul_compat, Es.
+Qed.
+
+Lemma ct_step_geqv cr c st g h : geqv g h -> ct_step cr c st g = ct_step cr c st h.
+Proof.
+  intros (S & B & A & U). apply same_group_spec in S. destruct S as (_ & _ & S). unfold same_rate, opt_eqQ in S.
+  unfold ct_step. destruct (rt_pct g) as [p|], (rt_pct h) as [p'|]; try tauto.
+  destruct S as [_ Es]. rewrite A, U. destruct (rt_sur g) as [s|], (rt_sur h) as [s'|]; try tauto.
+Qed.
+
+Lemma ct_step_comm cr c st g h : ct_step cr c (ct_step cr c st g) h = ct_step cr c (ct_step cr c st h) g.
+Proof.
+  unfold ct_step. destruct st as [a o].
+  destruct (rt_pct g), (rt_pct h); try reflexivity;
+    destruct (rt_sur g), (rt_sur h); cbn [fst snd]; rewrite (acc_rr_comm cr a); try reflexivity.
+  f_equal. f_equal. apply acc_rr_comm.
+Qed.
+
+Lemma fold_permA {A S} (eqA : A -> A -> Prop) (f : S -> A -> S) :
+  (forall s x y, eqA x y -> f s x = f s y) -> (forall s x y, f (f s x) y = f (f s y) x) ->
+  forall l l', PermutationA eqA l l' -> forall s, fold_left f l s = fold_left f l' s.
+Proof.
+  intros R C l l' P. induction P as [|x y l l' E _ IH|x y l|l l' l'' _ IH1 _ IH2]; intros s; cbn [fold_left].
+  - reflexivity.
+  - rewrite (R s x y E). apply IH.
+  - rewrite C. reflexivity.
+  - rewrite IH1. apply IH2.
+Qed.
+
+Lemma map_permA {A B} (RA : A -> A -> Prop) (RB : B -> B -> Prop) (f : A -> B) :
+  (forall x y, RA x y -> RB (f x) (f y)) ->
+  forall l l', PermutationA RA l l' -> PermutationA RB (map f l) (map f l').
+Proof.
+  intros R l l' P. induction P as [|x y l l' E _ IH|x y l|l l' l'' _ IH1 _ IH2]; cbn [map].
+  - constructor.
+  - apply permA_skip; [apply R, E|exact IH].
+  - apply permA_swap.
+  - eapply permA_trans; eauto.
+Qed.
+
+(* categories: same code, retention flag and figures; the same groups up to order *)
+Definition ceqv (a b : cat_total) : Prop :=
+  ct_code a = ct_code b /\ ct_retained a = ct_retained b /\ ct_amount a = ct_amount b /\
+  ct_surcharge a = ct_surcharge b /\ ct_precise a = ct_precise b /\ PermutationA geqv (ct_rates a) (ct_rates b).
+(* before the amounts are calculated *)
+Definition ceqv_base (a b : cat_total) : Prop :=
+  ct_code a = ct_code b /\ ct_retained a = ct_retained b /\ PermutationA geqv (ct_rates a) (ct_rates b).
+
+Global Instance ceqv_equiv : Equivalence ceqv.
+Proof.
+  split.
+  - intros a. unfold ceqv. repeat split. reflexivity.
+  - intros a b (A & B & C & D & E & F). unfold ceqv. repeat split; try congruence. symmetry. exact F.
+  - intros a b d (A & B & C & D & E & F) (A' & B' & C' & D' & E' & F'). unfold ceqv. repeat split; try congruence.
+    etransitivity; eauto.
+Qed.
+Global Instance ceqv_base_equiv : Equivalence ceqv_base.
+Proof.
+  split.
+  - intros a. unfold ceqv_base. repeat split. reflexivity.
+  - intros a b (A & B & F). unfold ceqv_base. repeat split; try congruence. symmetry. exact F.
+  - intros a b d (A & B & F) (A' & B' & F'). unfold ceqv_base. repeat split; try congruence.
+    etransitivity; eauto.
+Qed.
+
+Lemma ct_calc_ceqv cr c a b : ceqv_base a b -> ceqv (ct_calc cr c a) (ct_calc cr c b).
+Proof.
+  intros (A & B & F). unfold ceqv, ct_calc. cbn [ct_code ct_retained ct_amount ct_surcharge ct_precise ct_rates].
+  assert (P : PermutationA geqv (map (rt_calc c) (ct_rates a)) (map (rt_calc c) (ct_rates b))).
+  { apply (map_permA geqv geqv); [apply rt_calc_geqv|exact F]. }
+  rewrite (fold_permA geqv (ct_step cr c) (ct_step_geqv cr c) (ct_step_comm cr c) _ _ P).
+  repeat split; assumption.
+Qed.
+
+Lemma rt_round_geqv c g h : geqv g h -> geqv (rt_round c g) (rt_round c h).
+Proof.
+  intros (S & B & A & U). unfold geqv, rt_round. cbn [rt_base rt_amount rt_suramount]. rewrite B, A, U.
+  repeat split. apply same_group_spec in S. apply same_group_spec. exact S.
+Qed.
+
+Lemma ct_round_ceqv c a b : ceqv a b -> ceqv (ct_round c a) (ct_round c b).
+Proof.
+  intros (A & B & C & D & E & F). unfold ceqv, ct_round. cbn [ct_code ct_retained ct_amount ct_surcharge ct_precise ct_rates].
+  rewrite C, D. repeat split; try assumption. apply (map_permA geqv geqv); [apply rt_round_geqv|exact F].
+Qed.
+
+(* ---------------- categories up to order ---------------- *)
+(* retention is a property of the category (the regime's flag), not of the row *)
+Definition retained_consistent (tls : list tax_line) : Prop :=
+  forall tl cb tl' cb', In tl tls -> In cb (tl_taxes tl) -> In tl' tls -> In cb' (tl_taxes tl') ->
+    cb_cat cb = cb_cat cb' -> cb_retained cb = cb_retained cb'.
+Definition retained_by (ret : bytes -> bool) (tls : list tax_line) : Prop :=
+  forall tl cb, In tl tls -> In cb (tl_taxes tl) -> cb_retained cb = ret (cb_cat cb).
+
+Lemma retained_fun tls : retained_consistent tls -> exists ret, retained_by ret tls.
+Proof.
+  intros H.
+  exists (fun code => match find (fun cb => eqb_bytes (cb_cat cb) code) (flat_map tl_taxes tls) with
+                      | Some cb => cb_retained cb | None => false end).
+  intros tl cb Itl Icb.
+  assert (Iall : In cb (flat_map tl_taxes tls)) by (apply in_flat_map; eauto).
+  destruct (find _ _) as [cb0|] eqn:E.
+  - apply find_some in E. destruct E as [I0 E0]. apply eqb_bytes_eq in E0.
+    apply in_flat_map in I0. destruct I0 as (tl0 & Itl0 & Icb0).
+    apply (H tl cb tl0 cb0); auto.
+  - pose proof (find_none _ _ E cb Iall) as N. cbn beta in N. rewrite eqb_bytes_refl in N. discriminate.
+Qed.
+
+Lemma retained_by_perm ret tls tls' : Permutation tls tls' -> retained_by ret tls -> retained_by ret tls'.
+Proof. intros P H tl cb I. apply H. eapply Permutation_in; [apply Permutation_sym; exact P|exact I]. Qed.
+
+Definition cats_ret (ret : bytes -> bool) (cts : list cat_total) : Prop :=
+  Forall (fun ct => ct_retained ct = ret (ct_code ct)) cts.
+
+Lemma add_to_cats_ret ret cr c tot cb cts : cb_retained cb = ret (cb_cat cb) ->
+  cats_ret ret cts -> cats_ret ret (add_to_cats cr c tot cb cts).
+Proof.
+  intros H. unfold cats_ret. induction cts as [|ct r IH]; intros F; cbn [add_to_cats].
+  - constructor; [|constructor]. cbn [ct_with_rates new_ct ct_retained ct_code]. exact H.
+  - inversion F as [|? ? F1 F2]; subst. destruct (eqb_bytes (ct_code ct) (cb_cat cb)); constructor; auto.
+Qed.
+
+Lemma base_totals_ret ret cr c tls : retained_by ret tls -> cats_ret ret (base_totals cr c tls).
+Proof.
+  unfold base_totals.
+  assert (G : forall cts, retained_by ret tls -> cats_ret ret cts -> cats_ret ret (fold_left (add_tl cr c) tls cts)).
+  { induction tls as [|tl r IH]; intros cts H W; cbn [fold_left]; [exact W|].
+    apply IH; [intros t cb It; apply H; right; exact It|].
+    assert (Htl : forall cb, In cb (tl_taxes tl) -> cb_retained cb = ret (cb_cat cb)) by (intros cb; apply H; left; reflexivity).
+    unfold add_tl. generalize (tl_total tl) as tot. intros tot. clear - Htl W.
+    revert cts W. induction (tl_taxes tl) as [|cb l IHl]; intros cts W; cbn [fold_left]; [exact W|].
+    apply IHl; [intros x Ix; apply Htl; right; exact Ix|].
+    apply add_to_cats_ret; [apply Htl; left; reflexivity|exact W]. }
+  intros H. apply G; [exact H|constructor].
+Qed.
+
+Lemma cats_sub ret cr c tls tls' : Permutation tls tls' -> retained_by ret tls ->
+  forall ct, In ct (base_totals cr c tls) -> InA ceqv_base ct (base_totals cr c tls').
+Proof.
+  intros P H ct Ict.
+  destruct (groups_pairwise_distinct cr c tls) as [ND _].
+  pose proof (find_cat_nodup _ ct ND Ict) as E. set (code := ct_code ct) in *.
+  pose proof (has_cat_base_totals cr c code tls) as P1. unfold has_cat in P1. rewrite E in P1.
+  pose proof (has_cat_base_totals cr c code tls') as P2. unfold has_cat in P2.
+  rewrite <- (nonempty_perm _ _ (pairs_of_perm code tls tls' P)), <- P1 in P2.
+  destruct (find_cat code (base_totals cr c tls')) as [ct'|] eqn:E'; [|discriminate].
+  destruct (find_cat_some _ _ _ E') as [I' C'].
+  apply InA_alt. exists ct'. split; [|exact I'].
+  pose proof (category_groups_independent_of_row_order cr c code tls tls' P) as G.
+  unfold cat_rates in G. rewrite E, E' in G.
+  pose proof (base_totals_ret ret cr c tls H) as R1.
+  pose proof (base_totals_ret ret cr c tls' (retained_by_perm ret tls tls' P H)) as R2.
+  unfold cats_ret in R1, R2. rewrite Forall_forall in R1, R2.
+  unfold ceqv_base. split; [symmetry; exact C'|]. split; [|exact G].
+  rewrite (R1 ct Ict), (R2 ct' I'). fold code. rewrite C'. reflexivity.
+Qed.
+
+Lemma codes_NoDupA cts : NoDup (map ct_code cts) -> NoDupA ceqv_base cts.
+Proof.
+  induction cts as [|x r IH]; cbn [map]; intros N; constructor; inversion N as [|? ? N1 N2]; subst.
+  - intros I. apply InA_alt in I. destruct I as (y & (C & _) & Iy). apply N1. rewrite C. apply in_map, Iy.
+  - apply IH, N2.
+Qed.
+
+Theorem base_categories_independent_of_row_order cr c tls tls' :
+  Permutation tls tls' -> retained_consistent tls ->
+  PermutationA ceqv_base (base_totals cr c tls) (base_totals cr c tls').
+Proof.
+  intros P H. destruct (retained_fun tls H) as (ret & Hr).
+  pose proof (retained_by_perm ret tls tls' P Hr) as Hr'.
+  apply NoDupA_equivlistA_PermutationA.
+  - exact ceqv_base_equiv.
+  - apply codes_NoDupA, groups_pairwise_distinct.
+  - apply codes_NoDupA, groups_pairwise_distinct.
+  - intros x. split; intros Ix; apply InA_alt in Ix; destruct Ix as (g & E & Ig).
+    + apply (InA_eqA ceqv_base_equiv (x := g)); [symmetry; exact E|]. apply (cats_sub ret cr c tls tls' P Hr g Ig).
+    + apply (InA_eqA ceqv_base_equiv (x := g)); [symmetry; exact E|].
+      apply (cats_sub ret cr c tls' tls (Permutation_sym P) Hr' g Ig).
+Qed.
+
+(* ---------------- the tax sum ---------------- *)
+Lemma signedQ_ceqv a b : ceqv a b -> signedQ a = signedQ b.
+Proof. intros (_ & B & C & D & _). unfold signedQ. rewrite B, C, D. reflexivity. Qed.
+
+Lemma sumQ_signed_permA l l' : PermutationA ceqv l l' -> sumQ_signed l == sumQ_signed l'.
+Proof.
+  intros P. unfold sumQ_signed.
+  induction P as [|x y l l' E _ IH|x y l|l l' l'' _ IH1 _ IH2]; cbn [fold_right].
+  - reflexivity.
+  - rewrite (signedQ_ceqv x y E), IH. reflexivity.
+  - ring.
+  - rewrite IH1. exact IH2.
+Qed.
+
+Lemma sum_step_exp cr s ct : exp (sum_step cr s ct) = if cr then exp s else Nat.max (exp s) (exp (ct_amount ct)).
+Proof.
+  unfold sum_step.
+  assert (K : exp (match_rr cr s (ct_amount ct)) = if cr then exp s else Nat.max (exp s) (exp (ct_amount ct))).
+  { unfold match_rr. destruct cr; [reflexivity|]. apply match_precision_exp. }
+  destruct (ct_retained ct), (ct_surcharge ct); cbn [sub add exp]; exact K.
+Qed.
+
+Definition max_amount_exp (cts : list cat_total) (m : nat) : nat :=
+  fold_left (fun m ct => Nat.max m (exp (ct_amount ct))) cts m.
+
+Lemma sum_fold_exp cr cts : forall s,
+  exp (fold_left (sum_step cr) cts s) = if cr then exp s else max_amount_exp cts (exp s).
+Proof.
+  unfold max_amount_exp. induction cts as [|ct r IH]; intros s; cbn [fold_left].
+  - destruct cr; reflexivity.
+  - rewrite IH, sum_step_exp. destruct cr; reflexivity.
+Qed.
+
+Lemma max_amount_exp_permA l l' m : PermutationA ceqv l l' -> max_amount_exp l m = max_amount_exp l' m.
+Proof.
+  intros P. unfold max_amount_exp. apply (fold_permA ceqv); [| |exact P].
+  - intros s x y (_ & _ & C & _). rewrite C. reflexivity.
+  - intros s x y. lia.
+Qed.
+
+Lemma toQ_exp_eq a b : toQ a == toQ b -> exp a = exp b -> a = b.
+Proof.
+  intros Q E. apply amount_eq; [|exact E]. apply toQ_eq_iff in Q. rewrite E in Q.
+  pose proof (pow10_pos (exp b)) as Pp. apply Z.mul_cancel_r in Q; [exact Q|lia].
+Qed.
+
+Lemma tax_sum_permA cr c l l' : PermutationA ceqv (map (ct_calc cr c) l) (map (ct_calc cr c) l') ->
+  fold_left (sum_step cr) (map (ct_calc cr c) l) (zero_of c) = fold_left (sum_step cr) (map (ct_calc cr c) l') (zero_of c).
+Proof.
+  intros P. apply toQ_exp_eq.
+  - rewrite !tax_sum_signed. apply sumQ_signed_permA, P.
+  - rewrite !sum_fold_exp. destruct cr; [reflexivity|]. apply max_amount_exp_permA, P.
+Qed.
+
+(* ---------------- main theorem, rows level ---------------- *)
+Theorem tax_summary_independent_of_row_order cr c tls tls' :
+  Permutation tls tls' -> retained_consistent tls ->
+  let cats := map (ct_round c) (map (ct_calc cr c) (base_totals cr c tls)) in
+  let cats' := map (ct_round c) (map (ct_calc cr c) (base_totals cr c tls')) in
+  PermutationA ceqv cats cats' /\
+  fold_left (sum_step cr) (map (ct_calc cr c) (base_totals cr c tls)) (zero_of c) =
+  fold_left (sum_step cr) (map (ct_calc cr c) (base_totals cr c tls')) (zero_of c).
+Proof.
+  intros P H. cbv zeta.
+  pose proof (base_categories_independent_of_row_order cr c tls tls' P H) as B.
+  assert (C : PermutationA ceqv (map (ct_calc cr c) (base_totals cr c tls)) (map (ct_calc cr c) (base_totals cr c tls'))).
+  { apply (map_permA ceqv_base ceqv); [apply ct_calc_ceqv|exact B]. }
+  split.
+  - apply (map_permA ceqv ceqv); [apply ct_round_ceqv|exact C].
+  - apply tax_sum_permA, C.
+Qed.
+
+(* ---------------- lookup form: what is found for a category code and a query combo ---------------- *)
+Definition group_figures (g : rate_total) : amount * amount * amount := (rt_base g, rt_amount g, rt_suramount g).
+
+Lemma find_group_permA q R R' : distinct_groups R' -> PermutationA geqv R R' ->
+  forall g, find_group q R = Some g -> exists g', find_group q R' = Some g' /\ geqv g g'.
+Proof.
+  intros D' P g E. destruct (find_group_some _ _ _ E) as [Ig Mg].
+  assert (IA : InA geqv g R') by (apply (PermutationA_equivlistA geqv_equiv P), In_InA; [exact geqv_equiv|exact Ig]).
+  apply InA_alt in IA. destruct IA as (g' & Eg & Ig').
+  assert (Mg' : rt_matches g' q = true).
+  { apply (matches_same_group g' g q); [|exact Mg]. rewrite same_group_sym. apply Eg. }
+  destruct (find_group_in q R' g' Ig' Mg') as (h & Eh). destruct (find_group_some _ _ _ Eh) as [Ih Mh].
+  assert (h = g').
+  { apply (distinct_same_group_eq R'); try assumption. unfold same_group. apply (rt_matches_join h g' q); assumption. }
+  subst h. exists g'. split; assumption.
+Qed.
+
+Lemma find_group_figures_permA q R R' : distinct_groups R -> distinct_groups R' -> PermutationA geqv R R' ->
+  option_map group_figures (find_group q R) = option_map group_figures (find_group q R').
+Proof.
+  intros D D' P.
+  destruct (find_group q R) as [g|] eqn:E.
+  - destruct (find_group_permA q R R' D' P g E) as (g' & -> & (_ & B & A & U)).
+    cbn [option_map]. unfold group_figures. rewrite B, A, U. reflexivity.
+  - destruct (find_group q R') as [g'|] eqn:E'; [|reflexivity].
+    assert (P' : PermutationA geqv R' R) by (symmetry; exact P).
+    destruct (find_group_permA q R' R D P' g' E') as (g & Eg & _). congruence.
+Qed.
+
+Lemma distinct_map f R : (forall g h, same_group (f g) (f h) = same_group g h) ->
+  distinct_groups R -> distinct_groups (map f R).
+Proof.
+  intros Hf. induction R as [|x r IH]; cbn [map distinct_groups]; [auto|]. intros [F D]. split; [|apply IH, D].
+  apply Forall_forall. intros y Iy. apply in_map_iff in Iy. destruct Iy as (y0 & <- & Iy0).
+  rewrite Hf. rewrite Forall_forall in F. apply F, Iy0.
+Qed.
+
+Lemma same_group_calc_eq c g h : same_group (rt_calc c g) (rt_calc c h) = same_group g h.
+Proof.
+  unfold same_group. rewrite rt_calc_matches. apply rt_matches_ext; unfold rt_combo; cbn [cb_ext cb_country cb_pct cb_sur].
+  - apply rt_calc_ext.
+  - apply rt_calc_country.
+  - apply rt_calc_pct.
+  - apply rt_calc_sur.
+Qed.
+Lemma same_group_round_eq c g h : same_group (rt_round c g) (rt_round c h) = same_group g h.
+Proof. reflexivity. Qed.
+
+Lemma find_cat_map f code cts : (forall ct, ct_code (f ct) = ct_code ct) ->
+  find_cat code (map f cts) = option_map f (find_cat code cts).
+Proof.
+  intros Hf. induction cts as [|x r IH]; cbn [map find_cat]; [reflexivity|].
+  rewrite Hf. destruct (eqb_bytes (ct_code x) code); [reflexivity|exact IH].
+Qed.
+
+Lemma cat_rates_calc_round cr c code cts :
+  cat_rates code (map (ct_round c) (map (ct_calc cr c) cts)) = map (rt_round c) (map (rt_calc c) (cat_rates code cts)).
+Proof.
+  unfold cat_rates. rewrite !find_cat_map by reflexivity. destruct (find_cat code cts); reflexivity.
+Qed.
+
+Lemma cat_rates_distinct cr c code tls : distinct_groups (cat_rates code (base_totals cr c tls)).
+Proof. rewrite cat_rates_base_totals. apply fold_add_pair_distinct. exact I. Qed.
+
+(* for every category code and every query combo, the group the combo falls into has the same base,
+   amount and surcharge amount whatever the order of the rows (no hypothesis on retention needed) *)
+Theorem group_figures_independent_of_row_order cr c tls tls' code q :
+  Permutation tls tls' ->
+  let cats := map (ct_round c) (map (ct_calc cr c) (base_totals cr c tls)) in
+  let cats' := map (ct_round c) (map (ct_calc cr c) (base_totals cr c tls')) in
+  option_map group_figures (find_group q (cat_rates code cats)) =
+  option_map group_figures (find_group q (cat_rates code cats')).
+Proof.
+  intros P. cbv zeta. rewrite !cat_rates_calc_round.
+  apply find_group_figures_permA.
+  - apply distinct_map; [apply same_group_round_eq|]. apply distinct_map; [apply same_group_calc_eq|]. apply cat_rates_distinct.
+  - apply distinct_map; [apply same_group_round_eq|]. apply distinct_map; [apply same_group_calc_eq|]. apply cat_rates_distinct.
+  - apply (map_permA geqv geqv); [apply rt_round_geqv|]. apply (map_permA geqv geqv); [apply rt_calc_geqv|].
+    apply category_groups_independent_of_row_order, P.
+Qed.
+
+(* ================================================================================================ *)
+(* Part 4 - the whole calculation: reordering lines, document discounts and document charges        *)
+(* ================================================================================================ *)
+(* `calculate` cut into its stages (calculate_unfold: by computation) *)
+Definition included_of (pit : bytes) (cats : list cat_total) : option amount :=
+  match pit with
+  | [] => None
+  | _ => match find_cat pit cats with
+         | Some ct => Some (precise_or (ct_precise ct) (ct_amount ct))
+         | None => None
+         end
+  end.
+
+Definition assemble (d : doc) (lcs : list line_calc) (sum : amount) (dds ccs : list (ddc * amount))
+    (discount charge : option amount) (cats : list cat_total) (taxsum : amount) (included : option amount) : totals :=
+  let c := d_c d in
+  let total0 := match discount with Some x => sub sum x | None => sum end in
+  let total1 := match charge with Some x => add total0 x | None => total0 end in
+  let taxsum_r := rescale taxsum c in
+  let total := match included with Some ti => sub total1 ti | None => total1 end in
+  let tax := precise_or taxsum taxsum_r in
+  let twt := add total tax in
+  let payable := match d_rounding d with Some r => add twt r | None => twt end in
+  let advs := map (advance_amount c twt) (d_advances d) in
+  let advances := sum_opt c advs in
+  let due := match advances with Some a => Some (sub payable a) | None => None end in
+  let R := fun a => rescale a c in
+  let Ro := fun o => match o with Some a => Some (rescale a c) | None => None end in
+  mkTotals (map present_line lcs) (R sum) (Ro discount) (Ro charge) (Ro included) (R total)
+           (R tax) (R twt) (R payable) (Ro advances) (Ro due)
+           (map (fun p => present_ddc c (fst p) (snd p)) dds)
+           (map (fun p => present_ddc c (fst p) (snd p)) ccs)
+           (map R advs) (map (due_amount c payable) (d_dues d))
+           cats taxsum_r taxsum.
+
+Definition calc_final (d : doc) (lcs : list line_calc) (sum : amount) (dds ccs : list (ddc * amount))
+    (tls2 : list tax_line) : totals :=
+  let c := d_c d in
+  let cr := d_currency_rule d in
+  let cats0 := map (ct_calc cr c) (base_totals cr c tls2) in
+  let cats := map (ct_round c) cats0 in
+  assemble d lcs sum dds ccs (sum_opt c (map snd dds)) (sum_opt c (map snd ccs)) cats
+           (fold_left (sum_step cr) cats0 (zero_of c)) (included_of (d_pit d) cats).
+
+Definition calc_rest (d : doc) (lcs : list line_calc) (sum : amount) (dds ccs : list (ddc * amount))
+    (tls : list tax_line) : calc_result :=
+  match tls with
+  | [] => NoTotals (map present_line lcs)
+  | _ => match remove_included_all (d_pit d) (map (prepare_tl (d_c d)) tls) with
+         | None => CalcError
+         | Some tls2 => Totals (calc_final d lcs sum dds ccs tls2)
+         end
+  end.
+
+Lemma calculate_unfold d :
+  calculate d =
+  match calc_lines (d_currency_rule d) (d_c d) (d_cur d) (d_rates d) (d_lines d) with
+  | None => CalcError
+  | Some lcs => calc_rest d lcs (doc_sum d lcs) (doc_ddc d lcs (d_discounts d)) (doc_ddc d lcs (d_charges d))
+                          (doc_rows d lcs)
+  end.
+Proof. reflexivity. Qed.
+
+(* the same document with its lines, document discounts and document charges in another order *)
+Definition reorder (d : doc) (ls : list line) (ds cs : list ddc) : doc :=
+  mkDoc (d_c d) (d_currency_rule d) (d_pit d) (d_cur d) ls ds cs (d_rates d) (d_advances d) (d_dues d) (d_rounding d).
+
+(* every figure equal; the lists of lines, of presented discounts / charges and of categories (and
+   the groups inside each category) equal up to order *)
+Definition totals_same_up_to_order (t t' : totals) : Prop :=
+  Permutation (t_lines t) (t_lines t') /\
+  t_sum t = t_sum t' /\ t_discount t = t_discount t' /\ t_charge t = t_charge t' /\
+  t_tax_included t = t_tax_included t' /\ t_total t = t_total t' /\ t_tax t = t_tax t' /\
+  t_twt t = t_twt t' /\ t_payable t = t_payable t' /\ t_advances t = t_advances t' /\ t_due t = t_due t' /\
+  Permutation (t_dd t) (t_dd t') /\ Permutation (t_cc t) (t_cc t') /\
+  t_adv_rows t = t_adv_rows t' /\ t_dues t = t_dues t' /\
+  PermutationA ceqv (t_cats t) (t_cats t') /\
+  t_taxsum t = t_taxsum t' /\ t_taxsum_precise t = t_taxsum_precise t'.
+
+Definition result_same_up_to_order (r r' : calc_result) : Prop :=
+  match r, r' with
+  | CalcError, CalcError => True
+  | NoTotals l, NoTotals l' => Permutation l l'
+  | Totals t, Totals t' => totals_same_up_to_order t t'
+  | _, _ => False
+  end.
+
+(* ---- the per-row stages commute with permutations ---- *)
+Lemma calc_lines_perm_combine cr c cur rates ls ls' :
+  Permutation ls ls' -> forall lcs, calc_lines cr c cur rates ls = Some lcs ->
+  exists lcs', calc_lines cr c cur rates ls' = Some lcs' /\ Permutation (combine lcs ls) (combine lcs' ls').
+Proof.
+  intros P. induction P as [|l ls ls' _ IH|l1 l2 ls|ls ls' ls'' _ IH1 _ IH2]; intros lcs H.
+  - exists lcs. split; [exact H|apply Permutation_refl].
+  - cbn [calc_lines] in *. destruct (calc_line cr c cur rates l) as [x|]; [|discriminate].
+    destruct (calc_lines cr c cur rates ls) as [xs|] eqn:E; [|discriminate].
+    injection H as <-. destruct (IH xs eq_refl) as (xs' & E' & P').
+    rewrite E'. exists (x :: xs'). split; [reflexivity|]. cbn [combine]. apply perm_skip. exact P'.
+  - cbn [calc_lines] in *. destruct (calc_line cr c cur rates l1) as [x1|]; destruct (calc_line cr c cur rates l2) as [x2|]; try discriminate;
+      destruct (calc_lines cr c cur rates ls) as [xs|]; try discriminate.
+    injection H as <-. exists (x1 :: x2 :: xs). split; [reflexivity|]. cbn [combine]. apply perm_swap.
+  - destruct (IH1 lcs H) as (l1 & E1 & P1). destruct (IH2 l1 E1) as (l2 & E2 & P2).
+    exists l2. split; [exact E2|eapply Permutation_trans; eauto].
+Qed.
+
+Lemma remove_included_all_perm pit l l' :
+  Permutation l l' -> forall r, remove_included_all pit l = Some r ->
+  exists r', remove_included_all pit l' = Some r' /\ Permutation r r'.
+Proof.
+  intros P. induction P as [|t l l' _ IH|t1 t2 l|l l' l'' _ IH1 _ IH2]; intros r H.
+  - exists r. split; [exact H|apply Permutation_refl].
+  - cbn [remove_included_all] in *. destruct (remove_included pit t) as [x|]; [|discriminate].
+    destruct (remove_included_all pit l) as [xs|] eqn:E; [|discriminate].
+    injection H as <-. destruct (IH xs eq_refl) as (xs' & E' & P').
+    rewrite E'. exists (x :: xs'). split; [reflexivity|apply perm_skip; exact P'].
+  - cbn [remove_included_all] in *. destruct (remove_included pit t1) as [x1|]; destruct (remove_included pit t2) as [x2|]; try discriminate;
+      destruct (remove_included_all pit l) as [xs|]; try discriminate.
+    injection H as <-. exists (x1 :: x2 :: xs). split; [reflexivity|apply perm_swap].
+  - destruct (IH1 r H) as (r1 & E1 & P1). destruct (IH2 r1 E1) as (r2 & E2 & P2).
+    exists r2. split; [exact E2|eapply Permutation_trans; eauto].
+Qed.
+
+(* ---- retention consistency only looks at the combos ---- *)
+Definition combos_consistent (cbs : list combo) : Prop :=
+  forall cb cb', In cb cbs -> In cb' cbs -> cb_cat cb = cb_cat cb' -> cb_retained cb = cb_retained cb'.
+
+Lemma retained_consistent_iff tls : retained_consistent tls <-> combos_consistent (flat_map tl_taxes tls).
+Proof.
+  unfold retained_consistent, combos_consistent. split.
+  - intros H cb cb' I1 I2. apply in_flat_map in I1, I2. destruct I1 as (tl & A & B). destruct I2 as (tl' & A' & B').
+    apply (H tl cb tl' cb'); assumption.
+  - intros H tl cb tl' cb' A B A' B'. apply H; apply in_flat_map; eauto.
+Qed.
+
+Lemma flat_map_taxes_eq tls tls' : map tl_taxes tls = map tl_taxes tls' -> flat_map tl_taxes tls = flat_map tl_taxes tls'.
+Proof. intros E. rewrite !flat_map_concat_map, E. reflexivity. Qed.
+
+Lemma prepared_taxes pit c tls tls2 : remove_included_all pit (map (prepare_tl c) tls) = Some tls2 ->
+  flat_map tl_taxes tls2 = flat_map tl_taxes tls.
+Proof.
+  intros E. apply flat_map_taxes_eq. rewrite (remove_included_all_taxes _ _ _ E), map_map.
+  apply map_ext. intros tl. apply (prepare_tl_spec c tl).
+Qed.
+
+(* ---- looking a category up in lists equal up to order ---- *)
+Lemma find_cat_permA code l l' : NoDup (map ct_code l') -> PermutationA ceqv l l' ->
+  forall ct, find_cat code l = Some ct -> exists ct', find_cat code l' = Some ct' /\ ceqv ct ct'.
+Proof.
+  intros N P ct E. destruct (find_cat_some _ _ _ E) as [Ict C].
+  assert (IA : InA ceqv ct l') by (apply (PermutationA_equivlistA ceqv_equiv P), In_InA; [exact ceqv_equiv|exact Ict]).
+  apply InA_alt in IA. destruct IA as (ct' & Ec & Ict'). exists ct'. split; [|exact Ec].
+  rewrite <- C. destruct Ec as (Ec & _). rewrite Ec. apply find_cat_nodup; assumption.
+Qed.
+
+Lemma calc_codes cr c cts : map ct_code (map (ct_round c) (map (ct_calc cr c) cts)) = map ct_code cts.
+Proof. rewrite !map_map. apply map_ext. reflexivity. Qed.
+
+Lemma included_of_permA pit l l' : NoDup (map ct_code l) -> NoDup (map ct_code l') -> PermutationA ceqv l l' ->
+  included_of pit l = included_of pit l'.
+Proof.
+  intros N N' P. unfold included_of. destruct pit as [|b pit]; [reflexivity|].
+  destruct (find_cat (b :: pit) l) as [ct|] eqn:E.
+  - destruct (find_cat_permA _ l l' N' P ct E) as (ct' & -> & (_ & _ & A & _ & B & _)). rewrite A, B. reflexivity.
+  - destruct (find_cat (b :: pit) l') as [ct'|] eqn:E'; [|reflexivity].
+    assert (P' : PermutationA ceqv l' l) by (symmetry; exact P).
+    destruct (find_cat_permA _ l' l N P' ct' E') as (ct & Ec & _). congruence.
+Qed.
+
+(* ---- the final stage ---- *)
+Lemma calc_final_perm d lcs lcs' sum dds dds' ccs ccs' tls2 tls2' :
+  Permutation lcs lcs' -> Permutation dds dds' -> Permutation ccs ccs' -> Permutation tls2 tls2' ->
+  retained_consistent tls2 ->
+  totals_same_up_to_order (calc_final d lcs sum dds ccs tls2) (calc_final d lcs' sum dds' ccs' tls2').
+Proof.
+  intros Pl Pd Pc Pt H. unfold calc_final. cbv zeta.
+  set (c := d_c d). set (cr := d_currency_rule d).
+  destruct (tax_summary_independent_of_row_order cr c tls2 tls2' Pt H) as [PC ES]. cbv zeta in PC.
+  rewrite <- ES.
+  rewrite <- (sum_opt_perm c (map snd dds) (map snd dds')) by (apply Permutation_map, Pd).
+  rewrite <- (sum_opt_perm c (map snd ccs) (map snd ccs')) by (apply Permutation_map, Pc).
+  rewrite <- (included_of_permA (d_pit d) _ _) with (3 := PC).
+  2:{ rewrite calc_codes. apply groups_pairwise_distinct. }
+  2:{ rewrite calc_codes. apply groups_pairwise_distinct. }
+  unfold assemble, totals_same_up_to_order. cbv zeta.
+  cbn [t_lines t_sum t_discount t_charge t_tax_included t_total t_tax t_twt t_payable t_advances t_due t_dd t_cc
+       t_adv_rows t_dues t_cats t_taxsum t_taxsum_precise].
+  repeat split; try reflexivity.
+  - apply Permutation_map, Pl.
+  - apply Permutation_map, Pd.
+  - apply Permutation_map, Pc.
+  - exact PC.
+Qed.
+
+Lemma calc_rest_perm d lcs lcs' sum dds dds' ccs ccs' tls tls' :
+  Permutation lcs lcs' -> Permutation dds dds' -> Permutation ccs ccs' -> Permutation tls tls' ->
+  retained_consistent tls ->
+  result_same_up_to_order (calc_rest d lcs sum dds ccs tls) (calc_rest d lcs' sum dds' ccs' tls').
+Proof.
+  intros Pl Pd Pc Pt H. unfold calc_rest.
+  destruct tls as [|t0 ts] eqn:Et.
+  { apply Permutation_nil in Pt. subst tls'. cbn [result_same_up_to_order]. apply Permutation_map, Pl. }
+  destruct tls' as [|t0' ts'] eqn:Et'.
+  { apply Permutation_sym, Permutation_nil in Pt. discriminate. }
+  rewrite <- Et, <- Et' in *. clear Et Et' t0 ts t0' ts'.
+  assert (Pp : Permutation (map (prepare_tl (d_c d)) tls) (map (prepare_tl (d_c d)) tls')) by (apply Permutation_map, Pt).
+  destruct (remove_included_all (d_pit d) (map (prepare_tl (d_c d)) tls)) as [tls2|] eqn:E.
+  - destruct (remove_included_all_perm _ _ _ Pp tls2 E) as (tls2' & -> & P2).
+    cbn [result_same_up_to_order]. apply calc_final_perm; try assumption.
+    apply retained_consistent_iff. rewrite (prepared_taxes _ _ _ _ E). apply retained_consistent_iff, H.
+  - destruct (remove_included_all (d_pit d) (map (prepare_tl (d_c d)) tls')) as [tls2'|] eqn:E'; [|exact I].
+    destruct (remove_included_all_perm _ _ _ (Permutation_sym Pp) tls2' E') as (x & Ex & _). congruence.
+Qed.
+
+(* ---- the rows handed to the tax calculator ---- *)
+Lemma tax_lines_perm lcs ls lcs' ls' dd dd' cc cc' :
+  Permutation (combine lcs ls) (combine lcs' ls') -> Permutation dd dd' -> Permutation cc cc' ->
+  Permutation (tax_lines lcs ls dd cc) (tax_lines lcs' ls' dd' cc').
+Proof.
+  intros P1 P2 P3. unfold tax_lines. repeat apply Permutation_app; apply Permutation_map; assumption.
+Qed.
+
+Definition doc_combos (d : doc) : list combo :=
+  flat_map ln_taxes (d_lines d) ++ flat_map dd_taxes (d_discounts d) ++ flat_map dd_taxes (d_charges d).
+(* retention is a property of the category: two combos of the same category anywhere in the document
+   agree on it (in the implementation the flag is copied from the regime's category definition) *)
+Definition doc_retained_consistent (d : doc) : Prop := combos_consistent (doc_combos d).
+
+Lemma doc_rows_combos d lcs cb : In cb (flat_map tl_taxes (doc_rows d lcs)) -> In cb (doc_combos d).
+Proof.
+  unfold doc_rows, tax_lines, doc_combos, doc_ddc. rewrite !flat_map_app, !in_app_iff, !in_flat_map.
+  intros [(tl & I1 & I2)|[(tl & I1 & I2)|(tl & I1 & I2)]]; apply in_map_iff in I1.
+  - destruct I1 as ([lc l] & <- & I1). apply in_combine_r in I1. left. exists l. split; assumption.
+  - destruct I1 as ([x a] & <- & I1). apply in_map_iff in I1. destruct I1 as (y & Ey & I1). injection Ey as -> _.
+    right. left. exists x. split; assumption.
+  - destruct I1 as ([x a] & <- & I1). apply in_map_iff in I1. destruct I1 as (y & Ey & I1). injection Ey as -> _.
+    right. right. exists x. split; assumption.
+Qed.
+
+(* ---- main theorem, document level ---- *)
+Theorem calculate_independent_of_row_order d ls ds cs :
+  Permutation (d_lines d) ls -> Permutation (d_discounts d) ds -> Permutation (d_charges d) cs ->
+  doc_retained_consistent d ->
+  result_same_up_to_order (calculate d) (calculate (reorder d ls ds cs)).
+Proof.
+  intros Pl Pd Pc H. rewrite !calculate_unfold.
+  cbn [reorder d_c d_currency_rule d_cur d_rates d_lines d_discounts d_charges].
+  set (c := d_c d). set (cr := d_currency_rule d). set (d' := reorder d ls ds cs).
+  destruct (calc_lines cr c (d_cur d) (d_rates d) (d_lines d)) as [lcs|] eqn:EL.
+  - destruct (calc_lines_perm_combine cr c _ _ _ _ Pl lcs EL) as (lcs' & EL' & PC). rewrite EL'.
+    assert (PL : Permutation lcs lcs').
+    { destruct (calc_lines_perm cr c _ _ _ _ Pl lcs EL) as (x & Ex & Px). congruence. }
+    assert (ES : doc_sum d' lcs' = doc_sum d lcs).
+    { unfold doc_sum. apply fold_acc_perm, Permutation_map, Permutation_sym, PL. }
+    assert (PD : Permutation (doc_ddc d lcs (d_discounts d)) (doc_ddc d' lcs' ds)).
+    { unfold doc_ddc. rewrite ES. apply Permutation_map, Pd. }
+    assert (PCh : Permutation (doc_ddc d lcs (d_charges d)) (doc_ddc d' lcs' cs)).
+    { unfold doc_ddc. rewrite ES. apply Permutation_map, Pc. }
+    assert (PR : Permutation (doc_rows d lcs) (doc_rows d' lcs')).
+    { unfold doc_rows. apply tax_lines_perm; assumption. }
+    rewrite ES.
+    change (calc_rest d' lcs' (doc_sum d lcs) (doc_ddc d' lcs' ds) (doc_ddc d' lcs' cs) (doc_rows d' lcs'))
+      with (calc_rest d lcs' (doc_sum d lcs) (doc_ddc d' lcs' ds) (doc_ddc d' lcs' cs) (doc_rows d' lcs')).
+    apply calc_rest_perm; try assumption.
+    apply retained_consistent_iff. intros cb cb' I1 I2. apply H; apply (doc_rows_combos d lcs); assumption.
+  - destruct (calc_lines cr c (d_cur d) (d_rates d) ls) as [lcs'|] eqn:EL'; [|exact I].
+    destruct (calc_lines_perm cr c _ _ _ _ (Permutation_sym Pl) lcs' EL') as (x & Ex & _). congruence.
+Qed.
+
+Corollary totals_independent_of_row_order d ls ds cs t :
+  Permutation (d_lines d) ls -> Permutation (d_discounts d) ds -> Permutation (d_charges d) cs ->
+  doc_retained_consistent d -> calculate d = Totals t ->
+  exists t', calculate (reorder d ls ds cs) = Totals t' /\ totals_same_up_to_order t t'.
+Proof.
+  intros Pl Pd Pc H E. pose proof (calculate_independent_of_row_order d ls ds cs Pl Pd Pc H) as R.
+  rewrite E in R. destruct (calculate (reorder d ls ds cs)) as [|l'|t']; cbn [result_same_up_to_order] in R; try contradiction.
+  exists t'. split; [reflexivity|exact R].
+Qed.
+
+(* the retention hypothesis cannot be dropped: a category keeps the flag of the first combo seen, so two
+   rows of one category that disagree on `retained` give a tax sum whose sign depends on their order *)
+Lemma tax_sum_without_consistent_retention_refuted :
+  exists cr c tls tls', Permutation tls tls' /\
+    fold_left (sum_step cr) (map (ct_calc cr c) (base_totals cr c tls)) (zero_of c) <>
+    fold_left (sum_step cr) (map (ct_calc cr c) (base_totals cr c tls')) (zero_of c).
+Proof.
+  exists false, 2%nat,
+    [mkTL (mkA 10000 2) [mkCombo [] [] [] (Some (mkA 10 2)) None false []];
+     mkTL (mkA 10000 2) [mkCombo [] [] [] (Some (mkA 10 2)) None true []]],
+    [mkTL (mkA 10000 2) [mkCombo [] [] [] (Some (mkA 10 2)) None true []];
+     mkTL (mkA 10000 2) [mkCombo [] [] [] (Some (mkA 10 2)) None false []]].
+  split; [apply perm_swap|]. vm_compute. discriminate.
 Qed.
